@@ -34,3 +34,5 @@ import NbioVerif.Properties.ConnClose
 #print axioms ConnFull.close_pending_or_done
 #print axioms ConnFull.no_wire_after_flip
 #print axioms ConnFull.closeNow_eq_flip_teardown
+#print axioms ConnFull.c01_accepted_is_reported
+#print axioms ConnFull.c01_reported_needs_wf
